@@ -151,6 +151,22 @@ func (t *sseClientTransport) start(ctx context.Context) error {
 	t.sseConn.cancel = cancel
 	t.sseConn.mutex.Unlock()
 
+	// The stream outlives the call that opens it, so its context is detached from the caller's; while it is being
+	// established the caller's context still bounds the attempt (a server that accepts the request and sends no headers).
+	attemptOver := make(chan struct{})
+	defer close(attemptOver)
+	go func() {
+		select {
+		case <-ctx.Done():
+			select {
+			case <-attemptOver: // the attempt ended first: the stream (if any) is no longer the caller's to end
+			default:
+				cancel()
+			}
+		case <-attemptOver:
+		}
+	}()
+
 	// Create request to establish SSE connection
 	req, err := http.NewRequestWithContext(sseCtx, http.MethodGet, t.baseURL.String(), nil)
 	if err != nil {
